@@ -511,11 +511,21 @@ impl<Octs: Octets> UpdateMessage<Octs> {
             return Ok(Some(AfiSafiType::Ipv4Unicast));
         }
 
-        // Based on MP_UNREACH_NLRI
-        if let Ok(Some(mut iter)) = self.mp_withdrawals() {
-            let res = iter.afi_safi();
-            if iter.next().is_none() {
-                return Ok(Some(res))
+        // Based on MP_UNREACH_NLRI: the End-of-RIB marker is an UPDATE with
+        // an empty MP_UNREACH_NLRI as its only path attribute and nothing in
+        // the conventional sections, so a message carrying any NLRI is not
+        // an End-of-RIB.
+        if self.withdrawals.is_empty() && self.announcements.is_empty() {
+            let mut attrs = self.unchecked_path_attributes();
+            if let (Some(pa), None) = (attrs.next(), attrs.next()) {
+                if pa.type_code() == 15 {
+                    if let Ok(Some(mut iter)) = self.mp_withdrawals() {
+                        let res = iter.afi_safi();
+                        if iter.next().is_none() {
+                            return Ok(Some(res))
+                        }
+                    }
+                }
             }
         }
 
